@@ -40,16 +40,21 @@ package transport
 // addQueueC (C01, C02): the wire id handed out is not in the waiter table when it is taken, the
 // table gains exactly that one entry (nothing else changes), and the reply channel can hold one
 // reply so that the reader's non-blocking hand-off cannot miss a caller that is not parked yet.
-//@ func (dc *TraditionalDnsConn) addQueueC [C01, C02]
+//@ func (dc *TraditionalDnsConn) addQueueC [C01, C02, C09]
 //@   requires dc != nil
 //@   ensures c != nil ==> fresh(c) && cap(c) >= 1
 //@   ensures c != nil ==> !(uint32(qid) in atlock(dc.queue)) && atunlock((uint32(qid) in dc.queue) && dc.queue[uint32(qid)] == c)
 //@   ensures c != nil ==> atunlock(dc.queue) == atlock(dc.queue) && (forall k uint32 :: k != uint32(qid) ==> ((k in atunlock(dc.queue)) == (k in atlock(dc.queue))) && atunlock(dc.queue[k]) == atlock(dc.queue[k]))
 //@   ensures c == nil ==> atunlock(dc.queue) == atlock(dc.queue) && (forall k uint32 :: ((k in atunlock(dc.queue)) == (k in atlock(dc.queue))) && atunlock(dc.queue[k]) == atlock(dc.queue[k]))
 //@   ensures atunlock(dc.reservedQuery) == atlock(dc.reservedQuery)
+//@   ensures[C09] c != nil ==> atunlock(dc.nextQid) == (qid + 1) % 65536
 //@   loop 0:
 //@     invariant dc != nil && 0 <= i && dc.queue == atlock(dc.queue) && dc.reservedQuery == atlock(dc.reservedQuery)
 //@     invariant forall k uint32 :: ((k in dc.queue) == (k in atlock(dc.queue))) && dc.queue[k] == atlock(dc.queue[k])
+// (C09) every attempt consumes a new candidate id — an id still held by an unanswered query is
+// skipped, not probed a hundred times — so one long-lived query cannot make the connection refuse
+// exchanges it has room for once the 16-bit counter comes round to it
+//@     each[C09] dc.nextQid == (athead(dc.nextQid) + 1) % 65536
 //@     decreases 100 - i
 
 // deleteQueueC (C01): removes exactly the entry of qid.
